@@ -25,6 +25,14 @@ Disc oracle, the constructor step in user namespaces, the aftermath oracle, the 
 for `mkdir_all`, the first-use descriptor oracle, the kernel-reference oracle of reopen, the reopen-overmount suite,
 the `unshare -Ur -m` caller class of the /proc matrix, the error backlog, the mode probe and the full open-flag space
 of `create_file` came to be; two genuine defects of the unchanged code (F24, F25) and F21/F22 surfaced on the way.
+The second round (variants `c`, `d`; the agents were told which two changes existed already) added: the attacker grid
+for mutating operations with a host-side oracle, `pathrs_reopen` for every descriptor number, "the base itself
+over-mounted", runs with descriptor 0 free, the soak of the id generator, the named constants of the bindings, creation
+requests spelled with `O_PATH` on procfs, the no-follow operations and the unreadable sysctl of C15, history
+independence of procfs lookups across failed lookups, final `..` behind spellings of the root, and a FIFO over-mount
+with timed blocking lookups; it also showed two defects of the machinery itself (the `loc` oracle took the directory
+that contains the root for "location unknown"; an interposer's panic left the recorder switched off for the rest of
+the process) and why the harness must be jailed (§7.3).
 
 """
 outro = """
